@@ -148,12 +148,26 @@ def cases(tier):
         add(f'parts:{a}+{b}:v1', [('b', a), ('b', b)], 20, version=1, error='L', mask=(a + b) % 8, boost_error=False)
     add('parts:2+1:M4', [('b', 2), ('b', 1)], 20, version='M4', error='L', mask=1)
     add('parts:1+2:auto', [('b', 1), ('b', 2)], 20, mask=2)
+    # per-part (content, mode, encoding) tuples: options of one part must not leak into the next one
+    add('parts:tuple-utf8-then-plain', [('t', {'utf-8': 2, 'iso8859-1': 'fail', 'shift_jis': 'fail'}, {'enc': 'utf-8'}), ('t', {'iso8859-1': 1, 'utf-8': 2, 'shift_jis': 2})], 20,
+        version=2, error='L', mask=3, boost_error=False)
+    add('parts:plain-then-tuple-sjis', [('t', {'iso8859-1': 2, 'utf-8': 3, 'shift_jis': 3}), ('t', {'shift_jis': 2, 'iso8859-1': 1, 'utf-8': 3}, {'enc': 'shift_jis'})], 20,
+        version=2, error='L', mask=4, boost_error=False)
+    add('parts:tuple-mode-then-plain', [('b', 2, {'mode': 'byte'}), ('b', 2)], 20, version=1, error='L', mask=5, boost_error=False)
+    add('parts:tuple-alnum-then-plain', [('b', 2, {'mode': 'alphanumeric'}), ('b', 3)], 20, version=1, error='M', mask=6, boost_error=False)
+    add('parts:global-enc+tuple-none', [('t', {'utf-8': 2, 'iso8859-1': 1}, {'enc': None, 'mode': 'byte'}), ('t', {'utf-8': 3, 'iso8859-1': 2})], 20, encoding='utf-8',
+        version=2, error='L', mask=0, boost_error=False)
     if tier == 'thorough':
         add('parts:1+2+1:v2', [('b', 1), ('b', 2), ('b', 1)], 80, version=2, error='M', mask=3)
         add('parts:2+2+3:v2', [('b', 2), ('b', 2), ('b', 3)], 80, version=2, error='L', mask=5)
     # E: ECI
     for enc_name in ('utf-8', 'shift_jis', 'iso-8859-15', 'cp1252', 'cp437', 'latin1', 'utf-16-be'):
         add(f'eci:{enc_name}', [('b', 3)], 4, eci=True, encoding=enc_name, mode='byte', version=2, error='M', mask=4)
+    # ECI header at the capacity boundary (1-L holds 152 bits = 4 + 12 + 8 + 16 bytes): the header that is written must be the header
+    # that was counted when the version was chosen - for canonical names and aliases alike
+    for enc_name in ('latin1', 'utf-8', 'ISO-8859-1'):
+        for n in (16, 17):
+            add(f'eci-cap:{enc_name}:n={n}', [('b', n)], 8, eci=True, encoding=enc_name, mode='byte', error='L', micro=False, boost_error=False, mask=n % 8)
     add('eci:auto-version', [('b', 2)], 4, eci=True, encoding='utf-8', mode='byte', mask=1)
     add('eci:auto-mode', [('b', 2)], 6, eci=True, encoding='utf-8', mask=3, micro=False)
     add('no-eci:utf-8', [('b', 3)], 4, eci=False, encoding='utf-8', mode='byte', version=1, mask=0)
@@ -183,11 +197,13 @@ def jobs(tier, seed):
 
 
 # ---------------------------------------------------------------- running one case
-def build_content(spec):
+def build_content(spec, consts=None):
     """-> (content object for make, parts description for the oracle)"""
     parts = []
     objs = []
-    for i, (kind, arg) in enumerate(spec):
+    for i, item in enumerate(spec):
+        kind, arg = item[0], item[1]
+        opts = item[2] if len(item) > 2 else None
         if kind == 'b':
             sb = SBytes.fresh(f'c{i}_', arg)
             objs.append(sb)
@@ -213,18 +229,34 @@ def build_content(spec):
             sb = SBytes.fresh(f'd{i}_', arg)
             objs.append(IntProxy(sb))
             parts.append({'kind': 'int', 'sym': sb})
-    content = objs[0] if len(objs) == 1 else objs
+        if opts:
+            # per-part (content, mode, encoding) tuple of the public API
+            objs[-1] = (objs[-1], _mode_const(consts, opts.get('mode')), opts.get('enc'))
+            parts[-1]['opts'] = dict(opts)
+    content = objs[0] if len(objs) == 1 and not isinstance(objs[0], tuple) else objs
     return content, parts
+
+
+def _mode_const(consts, name):
+    """per-part modes are given as the library's MODE_* constants (as its own tests do)"""
+    if name is None:
+        return None
+    if consts is None:
+        from segno import consts
+    return getattr(consts, 'MODE_' + name.upper())
 
 
 def expected_bytes_and_encoding(part, kw):
     """which byte string must be in the symbol for this part, and the encoding it was produced with (C01 statement)"""
+    o = part.get('opts') or {}
+    enc_req = o.get('enc') or kw.get('encoding')
+    mode_req = o.get('mode') or kw.get('mode')
     if part['kind'] == 'bytes':
-        return part['sym'], (kw.get('encoding') or 'iso-8859-1')
+        return part['sym'], (enc_req or 'iso-8859-1')
     if part['kind'] == 'int':
         return part['sym'], 'iso-8859-1'
     script, syms = part['script'], part['syms']
-    order = [kw['encoding']] if kw.get('encoding') else (['gb2312'] if kw.get('mode') == 'hanzi' else ['iso-8859-1', 'shift_jis', 'utf-8'])
+    order = [enc_req] if enc_req else (['gb2312'] if mode_req == 'hanzi' else ['iso-8859-1', 'shift_jis', 'utf-8'])
     for e in order:
         try:
             name = codecs.lookup(e).name
@@ -252,7 +284,7 @@ def run_job(spec):
     res = Result(case['name'])
     L_ = common.sx()
     kw = dict(case['kw'])
-    content, parts = build_content(case['content'])
+    content, parts = build_content(case['content'], L_.consts)
     ex, paths = common.explore(lambda: L_.segno.make(content, **kw), max_paths=400, assume=int_assumptions(parts))
     res.paths = len(paths)
     allsyms = []
@@ -269,6 +301,8 @@ def run_job(spec):
                 out.append({'kind': 'text', 'script': {c: (list(common.bytes_from_model(m, p['syms'][c])) if c in p['syms'] else 'fail') for c in p['script']}})
             else:
                 out.append({'kind': p['kind'], 'data': list(common.bytes_from_model(m, p['sym']))})
+            if p.get('opts'):
+                out[-1]['opts'] = p['opts']
         return {'parts': out, 'kw': kw}
     exp = [expected_bytes_and_encoding(p, kw) for p in parts]
     accepted = 0
@@ -324,13 +358,18 @@ def check_symbol(res, path, q, r, kw, parts, exp, to_input):
     # ECI rule
     want_eci = None
     encs = {e for _, e in exp if e}
+    if kw.get('eci') and v >= 1 and len({codecs.lookup(e).name for e in encs}) > 1:
+        encs = set()
+        segs_eci = []          # parts with different encodings: the per-segment ECI rule is not asserted here (cases use eci=False)
+    else:
+        segs_eci = segs
     if kw.get('eci') and v >= 1 and encs:
         e = sorted(encs)[0]
         name = codecs.lookup(e).name
         if name != 'iso8859-1':
             want_eci = _ECI_BY_CODEC.get(name, 'unknown')
     latin_alias = bool(kw.get('eci')) and v >= 1 and want_eci is None     # an explicit ECI 3 header for Latin-1 is not excluded by the statement
-    for s in segs:
+    for s in segs_eci:
         w = want_eci if s['mode'] == 'byte' else None
         if w == 'unknown':
             continue
@@ -377,15 +416,18 @@ def concrete_content(inp):
     exp = []
     kw = inp['kw']
     for p in inp['parts']:
+        o = p.get('opts') or {}
+        enc_req = o.get('enc') or kw.get('encoding')
+        mode_req = o.get('mode') or kw.get('mode')
         if p['kind'] == 'bytes':
             objs.append(bytes(p['data']))
-            exp.append((bytes(p['data']), kw.get('encoding') or 'iso-8859-1'))
+            exp.append((bytes(p['data']), enc_req or 'iso-8859-1'))
         elif p['kind'] == 'int':
             objs.append(int(bytes(p['data']).decode()))
             exp.append((bytes(p['data']), 'iso-8859-1'))
         else:
             objs.append(FakeText(p['script']))
-            order = [kw['encoding']] if kw.get('encoding') else (['gb2312'] if kw.get('mode') == 'hanzi' else ['iso-8859-1', 'shift_jis', 'utf-8'])
+            order = [enc_req] if enc_req else (['gb2312'] if mode_req == 'hanzi' else ['iso-8859-1', 'shift_jis', 'utf-8'])
             e_used = None
             for e in order:
                 try:
@@ -396,7 +438,9 @@ def concrete_content(inp):
                     e_used = (bytes(p['script'][name]), e)
                     break
             exp.append(e_used or (None, None))
-    return (objs[0] if len(objs) == 1 else objs), exp
+        if o:
+            objs[-1] = (objs[-1], _mode_const(None, o.get('mode')), o.get('enc'))
+    return (objs[0] if len(objs) == 1 and not isinstance(objs[0], tuple) else objs), exp
 
 
 def judge_concrete(q, exp, kw):
@@ -431,7 +475,10 @@ def judge_concrete(q, exp, kw):
         bad.append(f'payload {got!r} != content {want!r}')
     want_eci = None
     encs = sorted({e for _, e in exp if e})
-    if kw.get('eci') and v >= 1 and encs:
+    mixed = len({codecs.lookup(e).name for e in encs}) > 1
+    if mixed and kw.get('eci'):
+        segs = []
+    if kw.get('eci') and v >= 1 and encs and not mixed:
         name = codecs.lookup(encs[0]).name
         if name != 'iso8859-1':
             want_eci = _ECI_BY_CODEC.get(name, 'unknown')
